@@ -13,7 +13,17 @@ func (r *Ref) Builder() *protocol.BlockRefBuilder {
 	if r == nil {
 		return nil
 	}
-	return &protocol.BlockRefBuilder{MessageType: r.Type, InstanceId: primitives.InstanceId(r.Inst), BlockHeight: primitives.BlockHeight(r.H), View: primitives.View(r.V), BlockHash: r.Hash}
+	b := &protocol.BlockRefBuilder{MessageType: r.Type, InstanceId: primitives.InstanceId(r.Inst), BlockHeight: primitives.BlockHeight(r.H), View: primitives.View(r.V), BlockHash: r.Hash}
+	if r.Pad != 0 {
+		raw := append([]byte{}, b.Build().Raw()...)
+		if r.Pad == 1 && len(raw) >= 12 {
+			raw[10], raw[11] = 0xEE, 0xFF
+		} else {
+			raw = append(raw, 0xAB, 0xCD, 0xEF, 0x01)
+		}
+		return protocol.BlockRefBuilderFromRaw(raw)
+	}
+	return b
 }
 
 // Bytes encodes the block ref (what gets signed).
